@@ -365,7 +365,9 @@ def main():
         print("check: /repo does not build with -tags verif:\n" + build.get("harness_msg", ""))
         sys.exit(2)
     if not build["model_ok"]:
+        # without the extracted model nothing can be compared: this is a broken check, not a pass
         print("check: the model does not build:\n" + build.get("model_msg", "") + build.get("coq_errors", ""))
+        sys.exit(2)
 
     if replay:
         rp = json.load(open(replay))
